@@ -397,6 +397,21 @@ def run_case(case, rec):
         if again is not None:
             rec.count("note:source-rejudged-after-derivation")
             _post(mon2d.snapshot(b), again, None, (b,), {})
+    # the structure read from its BPSEQ text in the layouts other programs write (right-aligned columns, trailing
+    # blanks, Windows line endings, tabs, blank lines): the decomposition must be that of the structure written
+    if pairs and int(core.chash(case)[4:6], 16) % 6 == 0:
+        from rnapolis import common
+        from vmon import gen2d
+
+        snap0 = mon2d.snapshot(b)
+        for name, tv in gen2d.bpseq_text_variants(str(b)):
+            try:
+                el = common.BpSeq.from_string(tv).elements
+            except Exception as e:
+                rec.violation("text.no-crash", {"layout": name, "text": tv[:200], "exception": repr(e)[:200]}, mechanism=f"crash:{type(e).__name__}:text-layout")
+                continue
+            rec.count("note:read-from-text-layout")
+            _post(snap0, el, None, (b,), {})
     # the same pairing with another sequence, decomposed in the same process
     if pairs and int(core.chash(case)[:2], 16) % 2 == 0:
         seq2 = "".join("UGCA"[(i * 7 + n) % 4] for i in range(n))
